@@ -46,6 +46,7 @@ EXTENDS Integers, Sequences, FiniteSets, TLC
 
 CONSTANTS MaxId,       \* stream identifiers range over 1..MaxId
           ZeroIncBug,  \* TRUE: Stream.Read as it was before the repair (enqueues an increment of 0)
+          OpenCleanupBug, \* TRUE: OpenStream's deferred cleanup queues a close message even if the open message was never sent
           DeadlineBug  \* "none" | "wresignal" | "rresignal" | "wlose": slips in the deadline branches (design errors the properties exclude)
 
 E == {0, 1}
@@ -261,19 +262,42 @@ DoOpen(S, e) ==
   LET s == S.nextOut[e] IN
   Send([S EXCEPT !.ss[e][s].reg = TRUE, !.nextOut[e] = NextAfter(S, s)], e, <<Msg("open", s, S.w, <<>>)>>)
 
-\* The same in two steps, as the code was before OpenStream held the openOrder semaphore from identifier
-\* allocation until the open message was queued: concurrent opens could queue their messages in any order.
+\* The same in two steps: allocate (under the openOrder semaphore), then -- once a write buffer is available --
+\* queue the open message.  Between the two the call can be cancelled (DoOpenCleanup).  Before the repair the
+\* semaphore did not exist and concurrent opens could queue their messages in any order (OpenRaceBug).
 DoOpenAlloc(S, e) ==
   LET s == S.nextOut[e] IN [S EXCEPT !.ss[e][s].reg = TRUE, !.nextOut[e] = NextAfter(S, s), !.unsent[e] = @ \cup {s}]
 DoOpenSend(S, e, s) == Send([S EXCEPT !.unsent[e] = @ \ {s}], e, <<Msg("open", s, S.w, <<>>)>>)
+
+\* Stream.close(false): as LocalClose, but no close message is queued
+LocalCloseSilent(S, e, s) ==
+  IF S.ss[e][s].cl THEN S
+  ELSE LET A == WRun([S EXCEPT !.ss[e][s].cw = TRUE], e, s)
+       IN RRun([A EXCEPT !.ss[e][s].cl = TRUE, !.ss[e][s].reg = FALSE], e, s)
+\* OpenStream's deferred cleanup when the stream was not established: `stream.close(sentOpenMessage)` --
+\* a close message only if the open message was sent (the peer rejects messages for identifiers it never saw opened)
+DoOpenCleanup(S, e, s) ==
+  IF s \in S.unsent[e]
+  THEN LET T == [S EXCEPT !.unsent[e] = @ \ {s}] IN
+       IF OpenCleanupBug THEN LocalClose(T, e, s) ELSE LocalCloseSilent(T, e, s)
+  ELSE LocalClose(S, e, s)
+\* a later identifier than expected was observed: the identifiers in between were consumed by opens that
+\* failed before their open message was sent
+SyncNext(S, e, s) ==
+  IF S.nextOut[e] # 0 /\ s > S.nextOut[e] /\ IsOut(e, s) THEN [S EXCEPT !.nextOut[e] = s] ELSE S
 
 \* OpenStream, second half: which case of the final select is ready
 Allocated(S, e, s) == IsOut(e, s) /\ (S.nextOut[e] = 0 \/ s < S.nextOut[e])
 OpenPending(S, e, s) == Allocated(S, e, s) /\ s \notin S.unsent[e] /\ S.ss[e][s].reg /\ ~S.ss[e][s].api /\ ~S.ss[e][s].cl
 OpenOutcome(S, e, s) == IF S.ss[e][s].est THEN "ok" ELSE IF S.ss[e][s].rcl THEN "rejected" ELSE "pending"
-DoOpenReturn(S, e, s) ==   \* established: hand the stream out; rejected: deferred stream.close(true)
-  IF S.ss[e][s].est THEN [S EXCEPT !.ss[e][s].api = TRUE] ELSE LocalClose(S, e, s)
-DoCancelOpen(S, e, s) == LocalClose(S, e, s)   \* ctx.Done(): deferred stream.close(true)
+DoOpenReturn(S, e, s) ==   \* established: hand the stream out; rejected: the deferred cleanup
+  IF S.ss[e][s].est THEN [S EXCEPT !.ss[e][s].api = TRUE] ELSE DoOpenCleanup(S, e, s)
+DoCancelOpen(S, e, s) == DoOpenCleanup(S, e, s)   \* ctx.Done() while waiting for a write buffer or for the accept
+OpenWaitsForBuffer(S, e, s) == s \in S.unsent[e]
+\* OpenStream called with a context that is already cancelled: the select statements pick at random, so the call
+\* gives up (a) before allocating, (b) after allocating but before the open message, (c) after the open message
+DoOpenCancelledB(S, e) == LET s == S.nextOut[e] IN DoOpenCleanup(DoOpenAlloc(S, e), e, s)
+DoOpenCancelledC(S, e) == LET s == S.nextOut[e] IN DoOpenCleanup(DoOpen(S, e), e, s)
 
 \* acceptOneStream
 CanAccept(S, e) == S.backlog[e] # <<>>
